@@ -27,6 +27,10 @@ func init() {
 			"controller-runtime's retry/backoff semantics.",
 		Run: runC06,
 		Mutants: []Mutant{
+			{Name: "pool-asked-before-readoption", File: "controller/service.go",
+				Old: "\tif len(lbIPs) != 0 {\n\t\t// This assign is idempotent", New: "\tif len(lbIPs) != 0 && c.ips.Pool(key) == \"\" && valueForAnnotation(svc.Annotations, AnnotationAddressPool, DeprecatedAnnotationAddressPool) != \"\" {\n\t\tc.clearServiceState(key, svc)\n\t\tlbIPs = []net.IP{}\n\t}\n\tif len(lbIPs) != 0 {\n\t\t// This assign is idempotent", Expect: "allocator-asked-after-readoption"},
+			{Name: "pass-ends-at-first-failure", File: "internal/k8s/controllers/service_controller_reload.go",
+				Old: "\"event\", \"failed to handle service, retry\")\n\t\t\tretry = true", New: "\"event\", \"failed to handle service, retry\")\n\t\t\treturn ctrl.Result{}, errRetry", Expect: "PASS-COMPLETE"},
 			{Name: "sharing-key-dropped-with-its-allocation", File: "internal/allocator/allocator.go",
 				Old: "\t\tif len(a.portsInUse[ip.String()]) == 0 {\n\t\t\tdelete(a.portsInUse, ip.String())\n\t\t\tdelete(a.sharingKeyForIP, ip.String())\n\t\t}\n",
 				New: "\t\tif len(a.portsInUse[ip.String()]) == 0 {\n\t\t\tdelete(a.portsInUse, ip.String())\n\t\t}\n\t\tif a.sharingKeyForIP[ip.String()] == &al.key {\n\t\t\tdelete(a.sharingKeyForIP, ip.String())\n\t\t}\n", Expect: "KEY-LIFETIME"},
@@ -81,6 +85,7 @@ func runC06(p *chk.Prog, r *chk.Report) {
 	// no exit of convergeBalancer before the recorded addresses are re-adopted or dropped (READOPT-EXIT, shared with C03, C01)
 	readoptBeforeExitRule(p, r)
 	c06EveryEvent(p, r)
+	passCompleteRule(p, r)
 	c06WriteErr(p, r)
 	// releasing a Service whose status write failed leaves the sharing key of an address that others still hold
 	// (KEY-LIFETIME, shared with C01): otherwise the address looks free and is recorded for a second Service
@@ -498,6 +503,52 @@ func c06EveryEvent(p *chk.Prog, r *chk.Report) {
 		return ok && len(rs.Results) == 2 && f.IsNilLit(rs.Results[1])
 	}, Cut: func(b *cfgBlock, k int) bool { return g.EdgeImplies(b, k, allowed) }}).Run()
 	x.Check("reconcileService:no-silent-drop", posOf(w, f), !w.Found && len(g.Find(isHandler)) >= 1, "", "an event can be acknowledged without reaching the handler for a reason other than the initial-load gate and the class filter (a retry of a failed status write carries an unchanged object): "+describe(f, w))
+}
+
+// passCompleteRule (shared by C09, C06, C07): a full pass hands every Service to the handler. One Service's failure
+// asks for the pass to be repeated - it does not end it: the Services listed after a persistently failing one would
+// never be looked at again, whatever configuration or node change the pass was meant to apply to them.
+func passCompleteRule(p *chk.Prog, r *chk.Report) {
+	x := r.Rule("PASS-COMPLETE", "B path", "in (*ServiceReconciler).reprocessAll the loop over the Services is never left (return / break) on a path that has called the handler in that iteration: whatever the handler answers, the remaining Services are still processed in this pass", 1)
+	f := need(x, p, ctrlPkg, "ServiceReconciler", "reprocessAll")
+	if f == nil {
+		return
+	}
+	g := f.Graph()
+	isHandler := f.ContainsPat("RECV.Handler(ETC)", chk.H("RECV", isRecv(f)))
+	n := 0
+	for _, rs := range f.RangeLoops(chk.Any) {
+		has := false
+		for _, h := range g.Find(isHandler) {
+			if chk.InBody(rs, h.Node) {
+				has = true
+			}
+		}
+		if !has {
+			continue
+		}
+		n++
+		ok, pos := true, rs.Pos()
+		head, _, _ := g.RangeBlocks(rs)
+		for _, h := range g.Find(isHandler) {
+			if !chk.InBody(rs, h.Node) {
+				continue
+			}
+			// from the handler call on, without going round to the next element: anything outside the loop body that is
+			// reached, or a return inside it, ends the pass early
+			w := (&chk.Walk{G: g, From: h, Hit: func(n ast.Node) bool {
+				if _, isRet := n.(*ast.ReturnStmt); isRet {
+					return true
+				}
+				return !chk.InBody(rs, n) && !chk.Encloses(rs, n)
+			}, Cut: func(b *cfgBlock, k int) bool { return b.Succs[k] == head }}).Run()
+			if w.Found {
+				ok, pos = false, posOf(w, f)
+			}
+		}
+		x.Check("reprocessAll:handler-answer-never-ends-the-pass", pos, ok, "", "the pass over the Services can end right after the handler answered for one of them (fail-fast): the Services sorted after a failing one are not re-evaluated by this pass, nor by its retries while the failure lasts")
+	}
+	x.Check("reprocessAll:handler-loop", f.Pos(), n >= 1, "", "no loop that hands the Services to the handler")
 }
 
 func c06Handler(p *chk.Prog, r *chk.Report) {
